@@ -5,6 +5,7 @@ pub mod c04;
 pub mod c11;
 pub mod c12;
 pub mod c16;
+pub mod c17;
 pub mod c19;
 
 pub fn run(id: &str, tier: Tier) -> Option<Report> {
@@ -14,6 +15,7 @@ pub fn run(id: &str, tier: Tier) -> Option<Report> {
         "C11" => c11::run(tier),
         "C12" => c12::run(tier),
         "C16" => c16::run(tier),
+        "C17" => c17::run(tier),
         "C19" => c19::run(tier),
         _ => return None,
     })
@@ -47,6 +49,7 @@ pub fn replay(path: &str) -> i32 {
         "C11" => c11::replay(case),
         "C12" => c12::replay(case),
         "C16" => c16::replay(case),
+        "C17" => c17::replay(case),
         _ => {
             eprintln!("no replay for property {id}");
             return 2;
